@@ -186,6 +186,15 @@ theorem error_position_statement_false : ¬ error_position_statement := by
     rw [this] at hmem
     exact assertion_not_mem_map_expected _ hmem
 
+/-- Non-vacuity of `delta_at_yield_map`: interval 3, two workers: after four consumed tasks worker 0 has
+reported its state after its 2nd fetch (task 2 carried a delta), worker 1 after its 1st (task 1 did,
+task 3 did not). -/
+example :
+    let c : Cfg := { W := 2, P := 2, interval := 3, inOrder := true, iterable := false, persistent := false
+                     shards := [], batches := [.ok 0, .ok 1, .ok 2, .ok 3, .ok 4] }
+    wsAfter c 4 = [⟨2, false⟩, ⟨1, false⟩] ∧ stOf c 3 = none ∧ stOf c 2 = some ⟨2, false⟩ := by
+  decide
+
 /-! Non-vacuity: the hypotheses of the map-style theorems are satisfied by a run with out-of-order
 arrival (worker 1 answers before worker 0), a `state_dict` call and a failing fetch at interval 1. -/
 
@@ -201,6 +210,16 @@ example : exCfg.Valid ∧ exCfg.iterable = false ∧ exCfg.inOrder = true ∧ No
     (run exCfg (init exCfg) exRun).map (·.obs) =
       some [.item 10, .sd 1 0 0 1 [⟨1, false⟩, ⟨0, false⟩], .error, .item 12, .stop] := by
   refine ⟨⟨by decide, by decide⟩, rfl, rfl, by simp [NoReset, exRun], Or.inl (by decide), by decide⟩
+
+/-- Non-vacuity of `kill_detected` / `kill_safe`: worker 0 is killed before it answers anything; the
+consumer blocks in `next()`, the liveness poll raises the worker-died error, nothing was yielded. -/
+example :
+    (run exCfg (init exCfg) [.kill 0, .next]).map
+        (fun s => (s.phase, s.resQ, up s 0, (s.workers[0]?).map (·.alive))) =
+      some (.waiting, [], true, some false) ∧
+    (run exCfg (init exCfg) [.kill 0, .next, .pollTimeout]).map (fun s => (s.obs, s.phase)) =
+      some ([.workerDied], .idle) := by
+  decide
 
 /-! ## Part 2 — iterable datasets with worker retirement, `in_order = True` -/
 
@@ -256,6 +275,17 @@ theorem epoch_complete_iter (as : List Action) (s : State) (hnr : NoReset as)
   rw [← yields_taskObs, ho, yields_map_expected, hD]
 
 end Iter
+
+/-- **`take_snapshot_assertion_holds`, iterable — statement only.**  For iterable datasets the dispatch-time
+window `x + 1 + W·P ≥ interval` is claimed to cover every task that can be yielded at a snapshot step
+(a task dispatched at `num_yielded = y` is yielded as batch `≤ y + 1 + W·P`), for every schedule and —
+unlike map-style — also with failing fetches.  NOT proved here (needs a counting invariant on the number
+of data tasks in flight); 433 real runs with failing items and intervals 2–7 never raised it, and the
+trace acceptor would reject a run in which model and code disagree on it. -/
+def take_snapshot_assertion_holds_iter_statement : Prop :=
+  ∀ (c : Cfg), c.ValidI → c.iterable = true → c.inOrder = true →
+  ∀ (as : List Action) (s : State), NoReset as → run c (init c) as = some s → ¬ died s →
+    Obs.assertion ∉ s.obs
 
 /-- Non-vacuity (iterable): two workers with shards of 1 and 3 batches, prefetch factor 2.  Worker 0's
 end-of-shard notice (task 2) arrives before worker 1's first batch; tasks 4 and 6 are dead tasks of the
